@@ -6,6 +6,7 @@
 //!   gmsim digest <ID> <tier> [--serial]   print the run digest only (determinism proof)
 //!   gmsim journal-run <ID> <tier> <seed> <run> <file>   one run, in-flight schedule journalled
 
+mod devtime;
 mod findrare;
 mod gen_c14;
 mod gen_c19;
@@ -79,6 +80,10 @@ fn main() {
         Some("check") => cmd_check(&args),
         Some("digest") => cmd_digest(&args),
         Some("journal-run") => cmd_journal_run(&args),
+        Some("dump-artifacts") => {
+            devtime::dump(Path::new(args.get(2).map(|s| s.as_str()).unwrap_or("/tmp/gmsim-artifacts")));
+            0
+        }
         Some("find-rare") => {
             findrare::main(args.get(2).and_then(|s| s.parse().ok()).unwrap_or(20));
             0
